@@ -19,12 +19,15 @@ pub struct HdrSpec {
     /// with a region: the last `dribbles` items are index entries BEHIND the region (their data
     /// follows the region trailer, the trailer covers fewer entries than the intro announces)
     pub dribbles: usize,
+    /// without a region: integer values at offsets that are not multiples of their size
+    pub misalign: bool,
 }
 
 pub fn enc_spec(s: &HdrSpec) -> Vec<u8> {
     let (mut entries, mut store) = match s.region {
         Some(t) if s.dribbles > 0 => layout_with_region_and_dribbles(t, &s.items, s.dribbles),
         Some(t) => layout_with_region(t, &s.items),
+        None if s.misalign => layout_misaligned(&s.items),
         None => layout(&s.items),
     };
     let first_item = if s.region.is_some() { 1 } else { 0 };
@@ -130,6 +133,7 @@ pub fn rand_spec(r: &mut Rng, pool: &[u32], region: u32) -> HdrSpec {
         trailing: if r.chance(1, 3) { let k = r.usize(9); r.bytes(k) } else { vec![] },
         shuffle_seed: if dribbles == 0 && r.chance(1, 3) { Some(r.next()) } else { None },
         dribbles,
+        misalign: r.chance(1, 5),
     }
 }
 
